@@ -12,6 +12,7 @@ func runC16(r *Report) {
 	r.Rule("C16/wrap-shape", "ServeHTTP wraps the routed handler in a reverse index loop over rt.Middlewares, inside `if hasPath` only, then serves it once with the derived request")
 	r.Rule("C16/bypass", "spec-file branch returns before route(); h == nil selects the not-found handler and forces hasPath=false")
 	r.Rule("C16/template-visible", "inside `if hasPath`, before wrapping, r is replaced by r.WithContext(WithValue(r.Context(), pathKey{}, <route's 2nd result>)) and SchemaPath reads that key type")
+	r.Rule("C16/own-template", "the leaf the route model reaches for an instance of a declared template returns exactly that template (spec oracle), so SchemaPath is the matched template")
 	r.Rule("C16/outside-security", "authentication wraps occur only inside route leaves (the value returned by route); ServeHTTP contains no other call")
 	r.Rule("C16/routed-iff-hasPath", "operation leaves return (handler, own template, true); CORS leaves return hasPath=false and an empty template")
 	r.Assumptions = append(r.Assumptions, "what a user middleware does with `next` is outside generated code", "programs quantifier bounded by the corpus")
@@ -35,6 +36,34 @@ func runC16(r *Report) {
 		r.Check(sm.CtxStoreOK, "C16/template-visible", key, pos, "matched template is not stored in the request context before the middlewares are applied")
 		r.OK("C16/outside-security", key, pos, "ServeHTTP fully recognised: no authentication call outside route()")
 		modelUndecided(r, s3, rp, "C16/routed-iff-hasPath")
+		// own template: a request for an instance of a declared template (fresh values for the
+		// variables) that the reference matcher assigns to that template must reach a leaf whose
+		// returned template is exactly the declared one — it is what SchemaPath hands to middlewares
+		for _, po := range rp.O.Paths {
+			segs := make([]string, len(po.Segments))
+			for i, sgm := range po.Segments {
+				if isVarSeg(sgm) {
+					segs[i] = "zz~fresh"
+				} else {
+					segs[i] = sgm
+				}
+			}
+			for method := range po.Ops {
+				if ref := rp.O.Match(segs, method); ref == nil || ref.Template != po.Template {
+					continue // shadowed by a more literal template: that one's obligation
+				}
+				okey := fmt.Sprintf("%s:%s %s", p.Name, method, po.Template)
+				lf := m.Eval(rp.O.BasePath+"/"+strings.Join(segs, "/"), method)
+				switch {
+				case lf == nil || lf.Kind != "op":
+					// reported by C03
+				case lf.Template != po.Template:
+					r.Violation("C16/own-template", okey, s3.pos(lf.Pos), fmt.Sprintf("the leaf reached for %s %s returns the template %q: SchemaPath would report a template the request did not match", method, po.Template, lf.Template))
+				default:
+					r.OK("C16/own-template", okey, s3.pos(lf.Pos), "")
+				}
+			}
+		}
 		for _, lf := range m.AllLeaves() {
 			nLeaves++
 			lkey := fmt.Sprintf("%s:%s %s leaf(%s)", p.Name, lf.Method, lf.Template, lf.Kind)
